@@ -266,6 +266,9 @@ class VcsCannedStream(Stream):
             if not inside:      # started outside the repository
                 return subprocess.CompletedProcess(command, 128, b"", b"fatal: not a repository")
             raw1, raw2 = self._raw(case, lay, below)
+            if kind == "git" and "rev-parse" in args and "--show-toplevel" in args:
+                # the canned repositories have their top at the project root (a root below the top: stream vcsgit)
+                return subprocess.CompletedProcess(command, 0, (lay.root + "\n").encode("utf-8"), b"")
             listing_cmd = {"git": "ls-files", "hg": "status", "jj": "files", "pijul": "list"}[kind]
             if listing_cmd in args:
                 zero = ("-z" in args) if kind == "git" else ("--print0" in args or "-0" in args) if kind == "hg" else False
@@ -438,10 +441,12 @@ def plan_submodules(seed):
     return out
 
 
-def build_submodules(top, root, plan, real_ok=True):
+def build_submodules(top, root, plan, real_ok=True, worktree=None):
     """create the planned submodules below `root` (a Git repository exists already; `root` is its top when real_ok) and register
-    them in root/.gitmodules — through Git's own writer, so that quoting of names is Git's.  Returns the paths."""
+    them where Git itself keeps them: in the .gitmodules at the top of the work tree (`worktree`, default `root`), with paths
+    relative to that top — through Git's own writer, so that quoting of names is Git's.  Returns the paths relative to `root`."""
     upstream = os.path.join(top, "upstream")
+    wt = worktree or root
     for name, path, kind in plan:
         full = os.path.join(root, path)
         if kind == "real" and real_ok:
@@ -467,8 +472,8 @@ def build_submodules(top, root, plan, real_ok=True):
             _git(["commit", "-q", "-m", "sub"], full)
             if kind != "embedded":
                 _git(["add", "--", os.path.relpath(full, root)], root)
-        for k, v in (("path", path), ("url", "https://example.com/%s.git" % kind)):
-            r = _git(["config", "--file", ".gitmodules", "submodule.%s.%s" % (name, k), v], root)
+        for k, v in (("path", os.path.relpath(full, wt)), ("url", "https://example.com/%s.git" % kind)):
+            r = _git(["config", "--file", os.path.join(wt, ".gitmodules"), "submodule.%s.%s" % (name, k), v], root)
             if r.returncode != 0:
                 raise RuntimeError("git config failed: %r" % r.stderr[-200:])
     return [p for _, p, _ in plan]
@@ -637,10 +642,12 @@ class VcsGitStream(Stream):
             subs = []
             if os.path.isdir(os.path.join(root, "mod")):
                 subs = ["mod"]
-                with open(os.path.join(root, ".gitmodules"), "w") as fp:
-                    fp.write('[submodule "mod"]\n\tpath = mod\n\turl = https://example.com/mod.git\n')
+                # .gitmodules is a file at the top of the work tree and its paths are relative to the top (that is where Git
+                # writes and reads it), also when the project root is a directory below the top
+                with open(os.path.join(repo, ".gitmodules"), "w") as fp:
+                    fp.write('[submodule "mod"]\n\tpath = %s\n\turl = https://example.com/mod.git\n' % os.path.relpath(os.path.join(root, "mod"), repo))
             _git(["init", "-q"], repo)
-            xsubs = build_submodules(top, root, plan_submodules(case["seed"]) if case.get("xsubs") else [], real_ok=root == repo)
+            xsubs = build_submodules(top, root, plan_submodules(case["seed"]) if case.get("xsubs") else [], real_ok=root == repo, worktree=repo)
             subs = subs + xsubs
             allf = []
             for dp, dn, fn in os.walk(repo):
@@ -694,7 +701,11 @@ class VcsGitStream(Stream):
             # the raw outputs, captured from the real commands started in the root, with the user's configuration
             raw1 = _git(["ls-files", "--exclude-standard", "--ignored", "--others", "--directory", "--no-empty-directory", "-z"],
                         root, global_config=gconf).stdout.decode("utf-8")
-            raw2 = _git(["config", "-z", "--file", ".gitmodules", "--get-regexp", GITMODULES_KEY_PATTERN], root, global_config=gconf).stdout.decode("utf-8")
+            raw2 = _git(["config", "-z", "--file", os.path.join(repo, ".gitmodules"), "--get-regexp", GITMODULES_KEY_PATTERN], root, global_config=gconf).stdout.decode("utf-8")
+            # the model reads submodule paths relative to the project root: rebase them from the top of the work tree (os.path.relpath,
+            # the step the tool itself takes after `git rev-parse --show-toplevel`; identity when the root is the top)
+            raw2 = "".join("%s\n%s\0" % (e.split("\n", 1)[0], os.path.relpath(os.path.join(repo, e.split("\n", 1)[1]), root))
+                           for e in raw2.split("\0") if "\n" in e)
             # (Git refuses to answer for a path inside a submodule of its index; the generated submodules hold no name an ignore pattern matches)
             asked = [x for x in paths if not below_any(x, xsubs)]
             r = _git(["check-ignore", "--stdin", "-z"], root, input=("\0".join(asked)).encode(), global_config=gconf)
